@@ -1,6 +1,6 @@
 (* Facts about Base/D3Float.v: the float denoted by a 64-bit pattern and the
    core::f64 predicates on it, in terms of the IEEE-754 fields. *)
-From Coq Require Import ZArith Bool Floats Lia.
+From Coq Require Import ZArith Bool Floats Lia ZifyBool.
 From Flocq Require IEEE754.Binary IEEE754.Bits.
 From V Require Import Base.Prelude Base.D3Float.
 Open Scope Z_scope.
@@ -115,4 +115,200 @@ Proof.
   - destruct (f64_exp_field b =? 2047).
     + destruct (f64_man_field b =? 0); destruct (f64_sign_bit b); reflexivity.
     + destruct (f64_sign_bit b); reflexivity.
+Qed.
+
+(* ---- NtpDuration::from_seconds of a number that is not NaN, not infinite and
+   not below zero is a non-negative duration (integer-level reasoning on the
+   SpecFloat definitions; no real analysis) ---- *)
+(* ---------- facts ---------- *)
+Lemma digits2_bounds p : 2 ^ (Zpos (digits2_pos p) - 1) <= Zpos p < 2 ^ Zpos (digits2_pos p).
+Proof.
+  induction p as [p IH|p IH|]; cbn [digits2_pos].
+  - rewrite Pos2Z.inj_succ, Z.pow_succ_r by lia.
+    replace (Z.succ (Zpos (digits2_pos p)) - 1) with (Z.succ (Zpos (digits2_pos p) - 1)) by lia.
+    rewrite Z.pow_succ_r by lia. lia.
+  - rewrite Pos2Z.inj_succ, Z.pow_succ_r by lia.
+    replace (Z.succ (Zpos (digits2_pos p)) - 1) with (Z.succ (Zpos (digits2_pos p) - 1)) by lia.
+    rewrite Z.pow_succ_r by lia. lia.
+  - cbn. lia.
+Qed.
+
+Lemma digits2_mono p q : Zpos p <= Zpos q -> Zpos (digits2_pos p) <= Zpos (digits2_pos q).
+Proof.
+  intros H. destruct (Z_le_gt_dec (Zpos (digits2_pos p)) (Zpos (digits2_pos q))) as [|G]; [assumption|].
+  exfalso. pose proof (digits2_bounds p) as [Lp _]. pose proof (digits2_bounds q) as [_ Uq].
+  assert (2 ^ Zpos (digits2_pos q) <= 2 ^ (Zpos (digits2_pos p) - 1)) by (apply Z.pow_le_mono_r; lia).
+  lia.
+Qed.
+
+Lemma shift_pos_val k p : Zpos (shift_pos k p) = Zpos p * 2 ^ Zpos k.
+Proof. rewrite shift_pos_correct. rewrite Zpower_pos_nat, Zpower_nat_Z, positive_nat_Z. lia. Qed.
+
+Lemma digits2_shift k p : digits2_pos (shift_pos k p) = (digits2_pos p + k)%positive.
+Proof.
+  unfold shift_pos. induction k using Pos.peano_ind.
+  - cbn. lia.
+  - rewrite Pos.iter_succ. cbn [digits2_pos]. rewrite IHk. lia.
+Qed.
+
+Lemma sf_of_pos_int_valid p :
+  Zpos (digits2_pos p) <= 53 -> valid_binary (sf_of_pos_int p) = true.
+Proof.
+  intros H. unfold sf_of_pos_int.
+  destruct (53 - Zpos (digits2_pos p)) as [|k|k] eqn:E; try lia.
+  - cbn [valid_binary]. unfold bounded, canonical_mantissa, fexp, SpecFloat.emin, prec, emax.
+    apply andb_true_intro. split; [|reflexivity].
+    apply Zeq_is_eq_bool. lia.
+  - cbn [valid_binary]. unfold bounded, canonical_mantissa, fexp, SpecFloat.emin, prec, emax.
+    rewrite digits2_shift. apply andb_true_intro. split.
+    + apply Zeq_is_eq_bool. pose proof (Pos2Z.is_pos (digits2_pos p)). lia.
+    + apply Zle_imp_le_bool. lia.
+Qed.
+
+(* value of sf_of_pos_int: mantissa * 2^exponent = p, with a non-positive exponent *)
+Lemma sf_of_pos_int_value p :
+  exists my ey, sf_of_pos_int p = S754_finite false my ey /\ ey <= 0 /\ Zpos my = Zpos p * 2 ^ (- ey).
+Proof.
+  unfold sf_of_pos_int. destruct (53 - Zpos (digits2_pos p)) as [|k|k].
+  - exists p, 0. repeat split; cbn; lia.
+  - exists (shift_pos k p), (Zneg k). repeat split; [lia|]. rewrite shift_pos_val. reflexivity.
+  - exists p, 0. repeat split; cbn; lia.
+Qed.
+
+(* the sign class: zero (either sign), NaN, +infinity, positive finite *)
+Definition nonneg_class (x : spec_float) : Prop :=
+  match x with
+  | S754_infinity true => False
+  | S754_finite true _ _ => False
+  | _ => True
+  end.
+
+Lemma bra_class mx ex lx : nonneg_class (binary_round_aux prec emax false mx ex lx).
+Proof.
+  unfold binary_round_aux.
+  destruct (shr_fexp prec emax mx ex lx) as [mrs' e'].
+  destruct (shr_fexp prec emax _ e' loc_Exact) as [mrs'' e''].
+  destruct (shr_m mrs'') as [|q|q]; [exact I| | exact I].
+  destruct (Zle_bool e'' (emax - prec)); exact I.
+Qed.
+
+Lemma bround_class mx ex : nonneg_class (binary_round prec emax false mx ex).
+Proof.
+  unfold binary_round. destruct (shl_align mx ex _) as [mz ez]. apply bra_class.
+Qed.
+
+Lemma bnorm_class m e : 0 <= m -> nonneg_class (binary_normalize prec emax m e false).
+Proof.
+  intros H. destruct m as [|p|p]; cbn [binary_normalize]; [exact I| apply bround_class | lia].
+Qed.
+
+Lemma shl_align_val mx ex ex' :
+  ex' <= ex -> Zpos (fst (shl_align mx ex ex')) = Zpos mx * 2 ^ (ex - ex').
+Proof.
+  intros H. unfold shl_align. destruct (ex' - ex) as [|d|d] eqn:E; cbn [fst]; try lia.
+  - replace (ex - ex') with 0 by lia. lia.
+  - rewrite shift_pos_val. f_equal. f_equal. lia.
+Qed.
+
+Definition good_number (f : float) : Prop :=
+  f64_is_nan f = false /\ f64_is_infinite f = false /\ f64_lt0 f = false.
+
+Lemma good_number_sf f :
+  good_number f ->
+  (exists s, Prim2SF f = S754_zero s) \/ (exists m e, Prim2SF f = S754_finite false m e).
+Proof.
+  intros (N & I & L). unfold f64_is_nan, f64_is_infinite, f64_lt0 in *.
+  rewrite FloatAxioms.eqb_spec in N. rewrite !FloatAxioms.eqb_spec in I. rewrite FloatAxioms.ltb_spec in L.
+  change (Prim2SF infinity) with (S754_infinity false) in I.
+  change (Prim2SF neg_infinity) with (S754_infinity true) in I.
+  change (Prim2SF zero) with (S754_zero false) in L.
+  destruct (Prim2SF f) as [s|s| |s m e].
+  - left; eauto.
+  - destruct s; cbn in I; discriminate.
+  - cbn in N. discriminate.
+  - destruct s; [cbn in L; discriminate|]. right; eauto.
+Qed.
+
+Lemma to_i64_nonneg y : nonneg_class (Prim2SF y) -> 0 <= f64_to_i64 y.
+Proof.
+  unfold f64_to_i64. destruct (Prim2SF y) as [s|s| |s m e]; cbn [nonneg_class]; intros H.
+  - lia.
+  - destruct s; [contradiction|]. unfold i64_max. lia.
+  - lia.
+  - destruct s; [contradiction|]. cbn [sf_signed_mantissa].
+    assert (0 <= (if 0 <=? e then Zpos m * 2 ^ e else Zpos m ÷ 2 ^ (- e))) as V.
+    { destruct (0 <=? e) eqn:E.
+      - apply Z.mul_nonneg_nonneg; [lia| apply Z.pow_nonneg; lia].
+      - apply Z.quot_pos; [lia| apply Z.pow_pos_nonneg; lia]. }
+    unfold sat_i64, clampZ, i64_min, i64_max. lia.
+Qed.
+
+Lemma mul_class g : nonneg_class (Prim2SF g) -> nonneg_class (Prim2SF (PrimFloat.mul g u32_max_f)).
+Proof.
+  intros H. rewrite FloatAxioms.mul_spec. unfold SF64mul.
+  assert (C : exists mc ec, Prim2SF u32_max_f = S754_finite false mc ec) by (eexists _, _; vm_compute; reflexivity).
+  destruct C as (mc & ec & ->).
+  destruct (Prim2SF g) as [s|s| |s m e]; cbn [SFmul nonneg_class] in *.
+  - exact I.
+  - destruct s; [contradiction| exact I].
+  - exact I.
+  - destruct s; [contradiction|]. cbn [xorb]. apply bra_class.
+Qed.
+
+Lemma valid_digits s m e : valid_binary (S754_finite s m e) = true -> Zpos (digits2_pos m) <= 53.
+Proof.
+  cbn [valid_binary]. unfold bounded, canonical_mantissa, fexp, SpecFloat.emin, prec, emax.
+  intros H. apply andb_prop in H. destruct H as [H _]. apply Zeq_bool_eq in H. lia.
+Qed.
+
+(* the fractional part s - floor s of a good number has a sign bit clear *)
+Lemma frac_class f :
+  good_number f ->
+  nonneg_class (Prim2SF (f64_floor f)) /\
+  nonneg_class (Prim2SF (PrimFloat.sub f (f64_floor f))).
+Proof.
+  intros G. pose proof (Prim2SF_valid f) as V.
+  rewrite FloatAxioms.sub_spec. unfold f64_floor.
+  destruct (good_number_sf f G) as [[s E] | (m & e & E)]; rewrite E in *.
+  - rewrite E. split; [exact I|]. cbn. destruct s; exact I.
+  - destruct (0 <=? e) eqn:Ee.
+    + rewrite E. split; [exact I|]. unfold SF64sub, SFsub.
+      cbn [cond_Zopp]. rewrite Z.sub_diag. exact I.
+    + cbn [sf_signed_mantissa].
+      pose proof (valid_digits _ _ _ V) as Dm.
+      assert (P2 : 0 < 2 ^ (- e)) by (apply Z.pow_pos_nonneg; lia).
+      destruct (Zpos m / 2 ^ (- e)) as [|p|p] eqn:Z.
+      * change (Prim2SF zero) with (S754_zero false). split; exact I.
+      * assert (Zpos p <= Zpos m).
+        { rewrite <- Z. apply Z.div_le_upper_bound; [lia|]. nia. }
+        pose proof (digits2_mono p m H) as Dp.
+        rewrite (Prim2SF_SF2Prim _ (sf_of_pos_int_valid p ltac:(lia))).
+        destruct (sf_of_pos_int_value p) as (my & ey & -> & Hey & Hmy).
+        split; [exact I|].
+        unfold SF64sub, SFsub. cbn [cond_Zopp].
+        apply bnorm_class.
+        rewrite !shl_align_val by lia.
+        assert (Zpos p * 2 ^ (- e) <= Zpos m).
+        { rewrite <- Z. rewrite Z.mul_comm. apply Z.mul_div_le. lia. }
+        set (ez := Z.min e ey).
+        rewrite Hmy.
+        assert (Zpos p * 2 ^ (- ey) * 2 ^ (ey - ez) = Zpos p * 2 ^ (- ez)) as ->.
+        { rewrite <- Z.mul_assoc, <- Z.pow_add_r by lia. f_equal. f_equal. lia. }
+        assert (Zpos p * 2 ^ (- ez) = Zpos p * 2 ^ (- e) * 2 ^ (e - ez)) as ->.
+        { rewrite <- Z.mul_assoc, <- Z.pow_add_r by lia. f_equal. f_equal. lia. }
+        assert (0 <= 2 ^ (e - ez)) by (apply Z.pow_nonneg; lia).
+        nia.
+      * exfalso. assert (0 <= Zpos m / 2 ^ (- e)) by (apply Z.div_pos; lia). lia.
+Qed.
+
+Lemma from_seconds_nonneg f : good_number f -> 0 <= from_seconds f.
+Proof.
+  intros G. destruct (frac_class f G) as [Ci Cf].
+  unfold from_seconds.
+  pose proof (to_i64_nonneg _ Ci) as Hi.
+  pose proof (to_i64_nonneg _ (mul_class _ Cf)) as Hf.
+  destruct ((i32_min <=? f64_to_i64 (f64_floor f)) && (f64_to_i64 (f64_floor f) <=? i32_max)).
+  - apply Z.lor_nonneg. split; [|exact Hf]. apply Z.mul_nonneg_nonneg; lia.
+  - assert ((f64_to_i64 (f64_floor f) <? i32_min) = false) as -> by (unfold i32_min; lia).
+    unfold i64_max. lia.
 Qed.
